@@ -12,7 +12,7 @@ from xh_support import prepare_cattrs  # noqa: E402
 conv = prepare_cattrs("cl14.core.cattrs_converter")
 S = conv.structure_from_dict
 U = conv.unstructure_to_dict
-from cl14.models import (AllOpt, Basic, Cat, Circle, Detailed, Dog, Holder, IntOrStr, ListOrBasic, OptA, OptB, Overlap, OverlapRev, Pet, Shape,  # noqa: E402
+from cl14.models import (AllOpt, BankPay, Basic, CardPay, Cat, Circle, Detailed, Dog, Holder, IntOrStr, ListOrBasic, OptA, OptB, Overlap, OverlapRev, Pay, Pet, Shape,  # noqa: E402
                          Square, StrOrBasic)
 
 KINDS = ["cat", "dog"]
@@ -41,7 +41,7 @@ def _same(a, b):
     return _norm(a) == _norm(b) and type(a) is type(b)
 
 
-for _t, _d in [(Pet, {"kind": "cat", "name": "n", "lives": 1}), (Pet, {"kind": "dog", "name": "n", "barkVolume": 1}), (Shape, {"r": 1}), (Shape, {"side": 1}),
+for _t, _d in [(Pay, {"method": "credit-card", "pan": "1"}), (Pay, {"method": "credit_card", "iban": "2"}), (Pet, {"kind": "cat", "name": "n", "lives": 1}), (Pet, {"kind": "dog", "name": "n", "barkVolume": 1}), (Shape, {"r": 1}), (Shape, {"side": 1}),
                (Overlap, {"id": "a"}), (Overlap, {"id": "a", "extra": 1}), (OverlapRev, {"id": "a"}), (OverlapRev, {"id": "a", "extra": 1}),
                (AllOpt, {"x": 1}), (AllOpt, {"y": 1}), (IntOrStr, 1), (IntOrStr, "s"), (StrOrBasic, "s"), (StrOrBasic, {"id": "a"}),
                (ListOrBasic, ["a"]), (ListOrBasic, {"id": "a"}),
@@ -282,4 +282,24 @@ def tw_holder_nullable_pet(maybe: int, pk: int, name: str, v: int) -> bool:
     post: _
     """
     S({"pet": {"kind": "cat", "name": "n"}, "maybePet": None}, Holder)
+    return False
+
+
+def ob_pay_similar_discriminator_values(bank: bool, v: str) -> bool:
+    """
+    pre: len(v) <= 2
+    post: _
+    """
+    # two discriminator values that differ only in punctuation ("credit-card" / "credit_card")
+    doc = {"method": "credit_card", "iban": v} if bank else {"method": "credit-card", "pan": v}
+    x = S(dict(doc), Pay)
+    return isinstance(x, BankPay if bank else CardPay) and _norm(_enc(x)) == _norm(doc)
+
+
+def tw_pay_similar_discriminator_values(bank: bool, v: str) -> bool:
+    """
+    pre: len(v) <= 2
+    post: _
+    """
+    S({"method": "credit-card", "pan": v}, Pay)
     return False
